@@ -253,8 +253,15 @@ def r4_scottish(ctx):
     good = False
     if bl is not None and bl.kind == "map" and not bl.conditional:
         line = bl.var
-        good = defs.get("ballot_weight") == f"Fraction({line}[0])" and defs.get("cand_ordering") == f"{line}[1:]" and \
-            defs.get("ranking") == astx.A("tuple([frozenset({num_to_cand[n]}) for n in cand_ordering])") and astx.u(bl.elt) == "Ballot(ranking=ranking, weight=ballot_weight)" \
+        # (the parts of the line are read through whatever temporaries hold them)
+        Nl = Normalizer(f.node, inline=True, no_inline=["num_to_cand"])
+        N0 = Normalizer(None, inline=False)
+        kwb = {k.arg: k.value for k in bl.elt.keywords} if isinstance(bl.elt, ast.Call) and astx.call_name(bl.elt) == "Ballot" and not bl.elt.args else {}
+        # (the weight is converted with Fraction(...) - checked through the expression itself, the key drops such wrappers)
+        wsrc = kwb.get("weight")
+        wsrc = astx.unique_def(f.node, wsrc.id) if isinstance(wsrc, ast.Name) else wsrc
+        good = set(kwb) == {"ranking", "weight"} and wsrc is not None and astx.u(wsrc) == f"Fraction({line}[0])" \
+            and Nl.key(kwb["ranking"]) == N0.key(ast.parse(astx.A(f"tuple([frozenset({{num_to_cand[n]}}) for n in {line}[1:]])"), mode="eval").body) \
             and any(bl.iter is u_ or astx.u(bl.iter) == astx.u(u_) for u_ in ballot_block)
     ctx.check(good, f, f.node, "ballot line = multiplicity followed by candidate numbers, mapped to the declared candidates in order; one ballot per line of the ballot block", "",
               "ballot-line parsing changed")
